@@ -26,8 +26,13 @@
      SmallNShape                           n = 1: unchanged; n = 0: body empty
      DefsKept                              every definition is preserved (for n >= 2 the counter's
                                            declaration is the only addition)
-   Strict = TRUE additionally demands (post-condition, MODEL-DIVERGENCE only) that the recorded listing is
-   literally the model's Wrap(...) and the definitions literally WrapDefs(...), order included.        *)
+   Two configurations:
+     LoopExecTrace_exec.cfg   (Strict = FALSE) the verdict: all of the above as INVARIANT / PROPERTY.
+     LoopExecTrace_shape.cfg  (Strict = TRUE, no invariants) MODEL-DIVERGENCE only: the post-condition
+                              demands that the recorded listing is literally the model's Wrap(...) and the
+                              definitions literally WrapDefs(...), order included.
+   They are separate runs so that a REJECTED_AT line of the shape comparison can never be mistaken for
+   the record at which an invariant failed.                                                            *)
 EXTENDS LoopExec, Json, IOUtils
 CONSTANT Strict
 
@@ -58,6 +63,7 @@ IdealOf(r) == /\ r.wrapped = Wrap(r.body, r.n, r.cell, r.label)
               /\ r.wdefs = WrapDefs(r.defs, r.n, r.decl)
 Accepted ==
    /\ \A n \in DOMAIN Rec : Rec[n].ev = "reset" \/ Print(<<"REJECTED_AT", n, Rec[n]>>, FALSE)
-   /\ TLCGet("stats").generated >= 2 * Len(Rec) \/ Print(<<"REJECTED_AT", 1, "records not executed">>, FALSE)
+   \* vacuity guard (a tool error, not a rejection of a record): every record gives >= 2 states
+   /\ TLCGet("stats").generated >= 2 * Len(Rec) \/ Print(<<"NOT_ALL_EXECUTED", TLCGet("stats").generated, Len(Rec)>>, FALSE)
    /\ Strict => \A n \in DOMAIN Rec : IdealOf(Rec[n]) \/ Print(<<"REJECTED_AT", n, Rec[n]>>, FALSE)
 =============================================================================
